@@ -111,7 +111,7 @@ class IpModel:
 
     def bits_term(self, fn):
         """Term of the full binary text built from the integer parameter in anonymize/deanonymize."""
-        return ("call", ("attr", ("attr", SELF, self.FMT), "format"), (("param", fn.params[1]),), ())
+        return ("call", ("attr", ("attr", SELF, self.FMT), "format"), (("param", fn.mparams[1]),), ())
 
     # ------------------------------------------------------------------
     def check_walk(self, rep, cl, inverse=False):
@@ -120,7 +120,7 @@ class IpModel:
         rep.analysed(fn)
         want_dir = "inverse" if inverse else "direct"
         fp = self.A.paths(fn)
-        bits = ("param", fn.params[1])
+        bits = ("param", fn.mparams[1])
         name = fn.name
         hits, misses = [], []
         for path in [x for x in fp.paths if x.feasible()]:
@@ -259,6 +259,8 @@ class IpModel:
             pure = {"hashlib.md5", "hashlib.hash.hexdigest", "str.encode", "builtins.int", "builtins.str", "hashlib.sha256", "hashlib.sha1", "builtins.ord", "builtins.bytes"}
             for e, ls in path.calls():
                 ts = self.G.resolve_callee(e.a[1], fn)
+                if ts and all(t[0] == "func" and t[1].qualname in self.ctx.helpers for t in ts):
+                    continue  # a helper analysed inlined: its own calls are on this path
                 names = {t[1] for t in ts if t[0] == "ext"}
                 okc = bool(ts) and all(t[0] == "ext" for t in ts) and names <= pure | {"?.encode", "?.hexdigest"}
                 if not okc:
@@ -352,7 +354,7 @@ class IpModel:
                         found = True
                         okw = b is not None and b.get("length") == ("const", width)
                         rep.ob(cl + ".width-arg", c.name, okw, "super().__init__ binds length=%s; expected %d" % (show(b.get("length")) if b else None, width), where(init, e.node))
-                        oks = b is not None and b.get("salt") == ("param", init.params[1])
+                        oks = b is not None and b.get("salt") == ("param", init.mparams[1])
                         rep.ob(cl + ".salt-arg", c.name, oks, "super().__init__ binds salt=%s" % (show(b.get("salt")) if b else None), where(init, e.node))
                         kw_ok = b is not None and (b.get("**") == ("param", "**" + (init.kwarg or "")) or b.get("preserve_suffix") is not None)
                         rep.ob(cl + ".suffix-forwarded", c.name, kw_ok, "constructor forwards preserve_suffix to the base (%s)" % (sorted(b) if b else None), where(init, e.node))
@@ -366,7 +368,7 @@ class IpModel:
                     ts = self.G.types_of(r, mk) if r else set()
                     rep.ob(cl + ".renderer", c.name, ts == {("xinst", fam)}, "make_addr_from_int returns %s (%s); expected %s of its integer argument" % (show(r), sorted(ts), fam), where(mk))
                     if M.is_call(r):
-                        rep.ob(cl + ".renderer-arg", c.name, r[2] == (("param", mk.params[1]),), "renderer argument %s" % show(r), where(mk))
+                        rep.ob(cl + ".renderer-arg", c.name, r[2] == (("param", mk.mparams[1]),), "renderer argument %s" % show(r), where(mk))
 
     # ------------------------------------------------------------------
     def check_split(self, rep, cl, inverse=False):
